@@ -132,7 +132,9 @@ type Line struct {
 	Msg     string `json:"msg"`
 }
 
-var reDiag = regexp.MustCompile(`^(.*?\.go):(\d+):(\d+): (\w+): (.*)$`)
+// a location is a path without spaces (the analysis driver also reports the synthesized test
+// main, whose cached source file has no .go suffix)
+var reDiag = regexp.MustCompile(`^((?:\./|/|\$GO)[^\s:]*|[^\s:]+\.go):(\d+):(\d+): (\w+): (.*)$`)
 
 // ParseLines extracts diagnostic lines from front-end output; lines that do not look like the
 // start of a diagnostic are appended to the previous message (messages may quote multi-line code).
